@@ -36,6 +36,7 @@ PrimOf(d, p, r) ==
        \* integer kinds: only values exactly representable in the field type are determined
        ELSE IF p \in {"uint64", "uint"} /\ n.c = "pow2" /\ n.s = 1 /\ n.e >= 31 /\ n.e <= 63 THEN [k |-> "num", v |-> n]    \* 2^31 .. 2^63 fit a 64-bit unsigned field
        ELSE IF p = "int64" /\ n.c = "pow2" /\ n.e >= 31 /\ n.e <= 62 THEN [k |-> "num", v |-> n]                             \* +-2^31 .. +-2^62 fit int64
+       ELSE IF p \in {"uint64", "uint"} /\ n = NamedNum("three62") THEN [k |-> "num", v |-> n]                                   \* 3 * 2^62 fits a 64-bit unsigned field only
        ELSE IF n.c \in {"pow2", "named"} THEN UErr("unk")
        ELSE IF IsInteger(n) /\ IntVal(n) >= IntRange(p)[1] /\ IntVal(n) <= IntRange(p)[2] THEN [k |-> "num", v |-> IF IsZero(n) THEN Zero(1) ELSE n]
        ELSE UErr("unk")
